@@ -139,7 +139,7 @@ def _drawn_shard(item):
 def run(report):
     quick = report.tier == "quick"
     report.rule = RULE
-    switches = sorted(open_switches())
+    switches = sorted(open_switches('C06'))
     for s in switches:
         report.exclusions.setdefault(s, 0)
     seed = env.sub_seed(report.seed, "C06", "fraction")
